@@ -163,8 +163,11 @@ def judge(kind, cfg, obs, intr: Interrupts):
                         add('executing-task-not-cached', f'{tk} was executing at the interrupt but its result is not in the cache afterwards')
         else:
             for idx, tk in intr.at_second or []:
-                c = by_idx[idx]
-                if c.state not in ('terminated', 'killed') and not c.result_committed:
+                # judged on what run_tasks left behind (afterwards the harness lets surviving workers finish)
+                st, committed = w.state_when_left.get(idx, (by_idx[idx].state, by_idx[idx].result_committed))
+                if intr.coalesced and oc[0] == 'spin':
+                    continue        # the same thing seen twice: the drain that never ends *is* the waiting for them
+                if st not in ('terminated', 'killed') and not committed:
                     add('not-terminated-on-second-interrupt', f'worker for {tk} was still executing at the second interrupt and was never terminated', True)
     # cache consistency: whatever is reported as cached must load correctly
     lab = labtech.Lab(storage=obs.storage, runner_backend='serial', notebook=False)
@@ -340,7 +343,13 @@ def run(tier: str, seed: int) -> Result:
         # doubles: first point = one representative per distinct source line, second = every later point
         reps_total += len(reps)
         if tier == 'quick':
-            reps = reps[:: max(1, len(reps) // 40)]
+            sampled = reps[:: max(1, len(reps) // 40)]
+            if kind == 'fork' and cfg.max_workers == 2 and not cfg.base.precached:
+                # one harness keeps every distinct line of the process runner / executor as first point:
+                # that is where the bookkeeping of running workers lives
+                crit = [idx for (fn, ln), idx in seen_sites.items() if fn.endswith(os.path.join('runners', 'process.py'))]
+                sampled = sorted(set(sampled) | set(crit))
+            reps = sampled
         for k1 in reps:
             horizon = K + 400
             for k2 in range(k1 + 1, min(horizon, k1 + (120 if tier == 'quick' else 400)) + 1):
